@@ -48,6 +48,12 @@ func (fr *Frame) call(site ssa.Instruction, c *ssa.CallCommon, st *State) []Val 
 				names = append(names, sig.Params().At(i).Name())
 				tys = append(tys, sig.Params().At(i).Type())
 			}
+			if len(sp.ParamNames) > 0 {
+				if len(sp.ParamNames) != len(names) {
+					unsup("%s:%d: contract lists %d parameters, method has %d (incl. self)", sp.File, sp.Line, len(sp.ParamNames), len(names))
+				}
+				names = sp.ParamNames
+			}
 			return fr.callByContract(site, key, sp, names, tys, append([]Val{recv}, args...), sig, st, c.Method.Pkg())
 		}
 		// try to devirtualise when the dynamic type is syntactically known (MakeInterface of concrete type)
